@@ -1,8 +1,8 @@
 #!/bin/bash
-# usage: tools_ingest.sh <ID>...   (e.g. C01c C01d)  - takes /tmp/mw2/out/<ID>, verifies it in a scratch worktree,
+# usage: tools_ingest.sh <ID>...   (e.g. C01c C01d)  - takes ${MUTOUT:-/tmp/mw2/out}/<ID>, verifies it in a scratch worktree,
 # and, if confirmed, files it as /verif/seeded/<ID>/ (patch.diff, demo *.go.txt, DEMO_PATH.txt, meta.json, verify.txt)
 for id in "$@"; do
-  src=/tmp/mw2/out/$id
+  src=${MUTOUT:-/tmp/mw2/out}/$id
   [ -f "$src/patch.diff" ] || { echo "$id: no patch"; continue; }
   /verif/tools_verify_mutant.sh "$src"
   res=$(grep -E '^(A_DEMO|APPLY|BUILD|B_DEMO|SUITE)_' "$src/verify.txt" | tr '\n' ' ')
